@@ -202,25 +202,45 @@ def run(chk):
         if res and res[-1][1] != [0, False]:
             leaks += 1
     rh.reset_state()
-    # ---- every call alone in a fresh interpreter (batched: one pristine process per batch, one forked child per call)
+    # ---- every call alone in a fresh interpreter.  A fork of a pristine process per call is exact but slow here, so it
+    # is done for the fixed histories and a sample; every call is also made, in a pristine process, after every plain-data
+    # module variable of hy.core.hy_repr (whatever its name) has been put back to its value before any call, and the two
+    # must agree where both were done.
     t0 = time.time()
-    fresh = []
-    for batch in pc.chunked(histories, 400):
-        code, out, err = vlib.run_impl("from props import repr_history; repr_history.main()", stdin=json.dumps(batch), timeout=900)
+    n_fork = 500 if thorough else 25
+    fork_idx = list(range(min(len(histories), n_fork)))
+    fresh = [None] * len(histories)
+    forked = {}
+    for batch in pc.chunked(list(range(len(histories))), 600):
+        req = {"fork": [histories[i] for i in batch if i in set(fork_idx)], "reload": [histories[i] for i in batch]}
+        code, out, err = vlib.run_impl("from props import repr_history; repr_history.main()", stdin=json.dumps(req), timeout=1500)
         if code != 0:
             chk.obligation("fresh-interpreter runs completed", False, err[-1500:])
             return
-        fresh.extend(json.loads(out))
+        res = json.loads(out)
+        for i, r in zip(batch, res["reload"]):
+            fresh[i] = r
+        for i, r in zip([i for i in batch if i in set(fork_idx)], res["fork"]):
+            forked[i] = r
     chk.extra["fresh_runs_s"] = round(time.time() - t0, 1)
+    bad = [i for i in forked if [x[0] for x in forked[i]] != [x[0] for x in fresh[i]]]
+    chk.obligation("a call made after restoring the module state of hy.core.hy_repr gives what it gives in a forked pristine process (%d histories)"
+                   % len(forked), not bad, json.dumps([histories[i] for i in bad[:1]])[:600])
+    for i in forked:
+        fresh[i] = forked[i]
     # ---- the state machine on the pure histories
     pure_idx = [i for i, h in enumerate(histories) if is_pure(h)]
     saved = list(pc.IMPORTS)
     pc.IMPORTS[:] = ["HyV.Print.Syntax", "HyV.Print.Names", "HyV.Print.ReprState", "HyV.Print.ReprScript", "HyV.Print.TableOracle"]
+    outs = []
     try:
         t0 = time.time()
         outs = pc.run_chunks([("table_oracle [] [] [] [] []", [coq_history(histories[i]) for i in ch])
                               for ch in pc.chunked(pure_idx, 60)], "c28")
         chk.extra["model_eval_s"] = round(time.time() - t0, 1)
+    except RuntimeError as e:
+        # the proof cone did not build (reported above): the comparison with the real code below still runs
+        chk.obligation("the state machine could be evaluated on the scripted histories", False, str(e)[-800:])
     finally:
         pc.IMPORTS[:] = saved
     model = {}
